@@ -403,6 +403,7 @@ class SqlImpl(TableImpl):
             query.select = []
             cnt = dict()
             name_in_subquery = dict()
+            name_before = dict()
 
             # The columns the table is grouped by are needed by a later `summarize`
             # or window function, even if no expression mentions them.
@@ -422,6 +423,7 @@ class SqlImpl(TableImpl):
             for uid in needed:
                 if uid in sqa_expr:
                     name = sqa_expr[uid].name
+                    name_before[uid] = name
                     if c := cnt.get(name):
                         name_in_subquery[uid] = f"{name}_{c}"
                         cnt[name] = c + 1
@@ -432,8 +434,10 @@ class SqlImpl(TableImpl):
                     query.select.append(uid)
 
             table = cls.compile_query(table, query, sqa_expr).subquery()
+            # Outside of the subquery a column goes by its own name again (a later
+            # `mutate` / `summarize` finds the column it overwrites by that name).
             sqa_expr = {
-                uid: sqa.label(name_in_subquery[uid], table.columns.get(name_in_subquery[uid]))
+                uid: sqa.label(name_before[uid], table.columns.get(name_in_subquery[uid]))
                 for uid in needed
                 if uid in sqa_expr
             }
